@@ -27,6 +27,7 @@ U32 = 1 << 32
 U64 = 1 << 64
 I63 = 1 << 63
 FAKE_BASE = 10 ** 15     # absolute value (ns) of the script clock's origin in the harness
+WORKERS = max(3, min(12, int(os.environ.get("VERIF_C18_WORKERS", "12"))))
 
 
 def fb(x):
@@ -359,6 +360,12 @@ class Spec:
             exp, klass = "ok", "handshake"      # "timeout" = the poller never got there: a failure of the scenario
         elif op == "settle" and len(t) == 1:
             exp, klass = "ok", "handshake"
+        elif op == "fastnap" and len(t) == 2 and t[1] in ("0", "1"):
+            touch = False
+            exp, klass = "ok", "handshake"
+        elif op in ("naps", "napsexit") and len(t) == 2 and t[1].isdigit():
+            touch = False
+            return self.do_naps(op, int(t[1]), out)
         elif op == "period" and len(t) == 2:
             touch = False
             klass = "period"
@@ -505,6 +512,7 @@ class Spec:
                 return "unknown"
             if len(form) > 3:
                 o.period_bits = form[3]
+            o.period_s = form[2]
             self.names[name] = o
         return "ok"
 
@@ -541,6 +549,36 @@ class Spec:
             o.exactable = False
         if fire:
             o.term = True
+
+    def do_naps(self, op, leaf_id, out):
+        """`naps`: how many sleeps of which length the poller made between two consecutive invocations of its
+        predicate.  The property: the periodic form reports the predicate's value no later than one period
+        afterwards - so the sleeps of one round must not add up to more than the period (polling more often is
+        allowed; how often exactly is compared with the model).  `napsexit` (sleeps after the last invocation,
+        once terminate() has been requested): no demand, model comparison only."""
+        klass = "lag"
+        f = out.split()
+        if len(f) != 2 or not f[0].startswith("n=") or not f[1].startswith("ns="):
+            return ("unparsable answer %r to `%s %d`" % (out, op, leaf_id), "protocol")
+        n, ns = f[0][2:], f[1][3:]
+        if n == "?" or op == "napsexit":
+            return (None, klass)
+        if not n.isdigit() or not (ns in ("-", "mixed") or ns.isdigit()):
+            return ("unparsable answer %r to `%s %d`" % (out, op, leaf_id), "protocol")
+        pol = [o for o in self.names.values() if o.kind == "pred" and o.id == leaf_id and o.polled]
+        if not pol or int(n) == 0 or ns == "mixed":
+            return (None, klass)
+        per = getattr(pol[0], "period_s", None)
+        if per is None or not math.isfinite(per):
+            return (None, klass)
+        total, bound = int(n) * int(ns), Fraction(per) * 1000000000
+        self.nap_rounds = getattr(self, "nap_rounds", 0) + 1
+        # IEEE rounding of period / count can exceed the exact quotient by a relative 2^-52: far below 1 ns here
+        if total > bound * (1 + Fraction(1, 10 ** 9)) + 1:
+            return ("the poller slept %d x %d ns = %d ns between two invocations of its predicate, more than the period "
+                    "of %r s: a change of the predicate can go unreported for longer than one period" % (int(n), int(ns), total, per),
+                    klass)
+        return (None, klass)
 
     def do_ev(self, o, out):
         snap_calls = {i: lf.calls for i, lf in self.leaves.items()}
@@ -840,6 +878,54 @@ def gen_cost(rng):
         g.ev(o)
         g.add("soln 0 " + fb(0.0))
         g.ev(o)
+    return g.lines
+
+
+def gen_cost_interleaved(rng):
+    """`costConv_spec_every_interleaving` against the code: between the cost reports arbitrary batches of other
+    operations - evaluations of the condition itself, of copies and of or/and nestings that contain it, evaluations
+    and terminate() of other conditions (predicates, iteration conditions, constants), solutions added and cleared;
+    never terminate() of the condition itself nor a second cost-convergence condition (gen_cost has those)"""
+    g = G(rng)
+    r = rng
+    w = r.choice([1, 2, 2, 3, 4, 5, r.range(1, 8)])
+    eps = r.choice([0.1, 0.01, 0.5, 1.0, 0.25, 0.05, 2.0])
+    for i in range(3):
+        g.script(i)
+    others = [g.define("pred %d" % i) for i in range(3)]
+    others.append(g.define("never"))
+    it = g.new_itc(r.range(0, 6))
+    others.append(g.define("itc " + it))
+    others.append(g.define("exact"))
+    cc = g.define("costconv %d %s" % (w, fb(eps)))
+    views = [cc]
+    cp = g.fresh()
+    g.add("copy %s %s" % (cc, cp))
+    g.names.append(cp)
+    views.append(cp)
+    views.append(g.define("or %s %s" % (r.choice(others[:3]), cc), 1))
+    views.append(g.define("and %s %s" % (cc, r.choice(others)), 1))
+    views.append(g.define("or %s %s" % (views[-1], views[-2]), 2))
+    costs = cost_seq(r, r.range(2, 3 * max(w, 2) + 6))
+    for c in costs:
+        for _ in range(r.below(5)):
+            k = r.below(8)
+            if k <= 2:
+                g.ev(r.choice(views))
+            elif k == 3:
+                g.ev(r.choice(others))
+            elif k == 4:
+                g.add("term " + r.choice(others))
+            elif k == 5:
+                g.add("soln %d %s" % (r.below(2), fb(r.below(10) / 4.0)))
+            elif k == 6:
+                g.add("solnclear" if r.chance(1, 3) else "itcev " + it)
+            else:
+                g.script(r.below(3))
+        g.add("cost " + fb(c))
+        g.ev(r.choice(views[:2]))
+    for v in views:
+        g.ev(v)
     return g.lines
 
 
@@ -1203,6 +1289,69 @@ def gen_handshake(rng, k, verdict, variant):
     return g.lines
 
 
+NAP_PERIODS = [0.001, 0.0010000000000000002, 0.0009999999999999998, 0.0014999999999999998, 0.0015, 0.0015000000000000002,
+               0.002, 0.0024999, 0.0025, 0.003, 0.0049, 0.01, 0.02, 0.05, 0.1, 0.3, 0.7, 1.0, 2.3, 10.0, 64.0, 99.9995, 100.0,
+               1e-6, 9.99e-7, 1.5e-6, 1e-5, 4e-4, 9.995e-4, 1e-9, 5e-324]
+
+
+NAP_PERIODS_DEEP = [2000.0, 4000.0, 1234.5678, 999.9999]
+
+
+def gen_naps(rng, variant, deep=False):
+    """the sleep schedule of periodicEval, observed through the interposed nanosleep: the poller is held by the
+    gate inside its k-th invocation of the predicate; `naps` then reads how many sleeps of which length it made
+    since its previous invocation (the model runs the step machine of the loop on `napPlan period`).
+      round      k = 1..3 on a fresh poller, then once more after release (a later round of a running poller)
+      exit       terminate() while the poller is inside the call: it must leave without another sleep
+    Sleeps of poller threads return at once (`fastnap 1`), except for periods <= 3 ms in half of the scripts."""
+    g = G(rng, fake=True)
+    r = rng
+    per = r.choice(NAP_PERIODS) if r.chance(3, 4) else r.choice([r.below(100000) / 1e6 + 1e-6, r.below(3000) / 1e3 + 0.0011,
+                                                                   (r.below(4000) + 1) / 1e6])
+    if deep and r.chance(1, 10):
+        per = r.choice(NAP_PERIODS_DEEP)          # millions of sleeps per round (the model uses its closed form)
+    fast = per > 0.003 or r.chance(1, 2)
+    g.add("fastnap %d" % (1 if fast else 0))
+    k = r.range(1, 3)
+    v = r.below(2)
+    g.add("script 0 %d" % r.below(2))
+    g.add("gate 0 %d %d" % (k, v))
+    ctor = r.below(3)
+    if ctor == 0 or per > 0.3:
+        p = g.define("poll %s pred 0" % fb(per))
+    elif ctor == 1:
+        # inside an `or`: the poller belongs to the operand
+        p = g.define("poll %s pred 0" % fb(per))
+        n = g.define("never")
+        g.define("or %s %s" % (n, p), 1)
+    else:
+        p = g.define("poll %s pred 0" % fb(per))
+        q = g.fresh()
+        g.add("copy %s %s" % (p, q))
+        g.names.append(q)
+    g.add("await 0")
+    g.add("naps 0")
+    g.add("period " + p)
+    if variant == "round":
+        g.add("release 0")
+        g.add("naps 0")                  # not held any more: no answer
+        g.add("gate 0 %d %d" % (r.range(1, 2), 1 - v))
+        g.add("await 0")
+        g.add("naps 0")                  # a later round of the running poller
+        g.add("release 0")
+        g.add("term " + p)
+        g.ev(p)
+    else:
+        g.add("term " + p)
+        g.ev(p)
+        g.add("release 0")
+        g.add("settle")
+        g.add("napsexit 0")
+        g.ev(p)
+    g.add("fastnap 0")
+    return g.lines
+
+
 # ====================================================================================== the check
 def canon(impl, model):
     """lines the model marks as scheduling-dependent are compared as wildcards"""
@@ -1212,6 +1361,8 @@ def canon(impl, model):
         y = model[i] if i < len(model) else "<missing>"
         if y.startswith("r=? ") and (x.startswith("r=0 ") or x.startswith("r=1 ")):
             x = y = "r=?"
+        elif x.startswith("n=") and y.startswith("n=") and ("n=?" in (x.split()[0], y.split()[0])):
+            x = y = "n=?"
         elif y.startswith("polled=") and x.startswith("polled="):
             # a field either side could not determine (`?`) is not compared
             fx, fy = x.split(), y.split()
@@ -1308,6 +1459,10 @@ def judge(ck, hbin, script, tag, res):
             ck.count("answer:" + o)
         elif o.startswith("polled="):
             ck.count("solve:observed" if "=?" not in o.rsplit(" ", 1)[0] else "solve:form-or-period-not-conclusive")
+    ck.count("oracle:nap-rounds-judged-against-the-period", getattr(res["spec"], "nap_rounds", 0))
+    for o in impl:
+        if o.startswith("n=") and not o.startswith("n=?"):
+            ck.count("naps:" + ("none" if o.startswith("n=0 ") else "some"))
     ck.count("oracle:no-demand-evaluations", res["spec"].uncertain)
     ck.count("oracle:rounding-sensitive-cost-decisions", res["spec"].rounding_sensitive)
     ck.count("model:scheduling-dependent-lines", sum(1 for m in res["model"] if m.startswith("r=?")))
@@ -1315,7 +1470,8 @@ def judge(ck, hbin, script, tag, res):
         ck.count("timing:retries", res["retries"])
     ck.sample({"generator": tag, "script": script[:14] + (["…(%d more lines)" % (len(script) - 14)] if len(script) > 14 else [])})
     fail, d = res["fail"], res["diff"]
-    if fail is None and d is not None and not any(l.startswith("wait") for l in script):
+    gated = any(l.startswith("gate ") for l in script)
+    if fail is None and d is not None and not gated and not any(l.startswith("wait") for l in script):
         # model and implementation differ where the property made no demand: look for a neighbour
         # on which the property itself fails
         r = ck.rng.fork("search%d" % ck.traces_validated)
@@ -1357,7 +1513,8 @@ def judge(ck, hbin, script, tag, res):
             s = [script[0]] + lines
             r2 = run_script(ck, hbin, s)
             return r2["diff"] is not None
-        small = [script[0]] + core.ddmin(script[1:], still, max_tests=150)
+        # handshake scripts: every line is part of the rendezvous (see above): reported as they are
+        small = script if gated else [script[0]] + core.ddmin(script[1:], still, max_tests=150)
         r2 = run_script(ck, hbin, small)
         a, b = canon(r2["impl"], r2["model"])
         dd = ck.first_diff(a, b)
@@ -1425,6 +1582,8 @@ def run(ck):
         jobs.append(("iter-wrap", gen_iter_wrap(ck.rng.fork("wrap%d" % i))))
     for i in range(n_cost):
         jobs.append(("cost", gen_cost(ck.rng.fork("cost%d" % i))))
+    for i in range(60 if quick else 600):
+        jobs.append(("cost-interleaved", gen_cost_interleaved(ck.rng.fork("costi%d" % i))))
     for i in range(n_timed):
         jobs.append(("timed-fake-clock", gen_timed_fake(ck.rng.fork("timed%d" % i))))
     for i in range(n_adv):
@@ -1441,13 +1600,16 @@ def run(ck):
                 for variant in ("inflight", "after-store", "before-next", "immediately"):
                     jobs.append(("handshake-" + variant,
                                  gen_handshake(ck.rng.fork("hs%d-%d-%d-%s" % (rep, k, verdict, variant)), k, verdict, variant)))
+    for i in range(60 if quick else 600):
+        variant = "round" if i % 2 == 0 else "exit"
+        jobs.append(("naps-" + variant, gen_naps(ck.rng.fork("naps%d" % i), variant, deep=not quick)))
     real = []
     for i in range(3 if quick else 9):
         real.append(("real-clock", gen_real(ck.rng.fork("real%d" % i), i % 3)))
     if not quick:
         real.append(("iter-wrap-public-api", gen_iter_wrap(ck.rng.fork("spin"), spin=True)))
     bad = 0
-    with concurrent.futures.ThreadPoolExecutor(max_workers=12) as ex:
+    with concurrent.futures.ThreadPoolExecutor(max_workers=WORKERS) as ex:
         # the real-time scripts start first and run alongside the rest (3 at a time)
         real_f = [(tag, s, ex.submit(run_script, ck, hbin, s)) for tag, s in real[:3]]
         futs = [(tag, s, ex.submit(run_script, ck, hbin, s)) for tag, s in jobs]
